@@ -203,6 +203,37 @@ class Inter:
         return False
 
 
+_HEAD = {"residual": "Err"}
+
+
+def _combinator(c):
+    """value-shape transfer functions of Option/Result combinators (constructor chain -> chain)"""
+    n = c.name or ""
+    def head(ch):
+        return _HEAD.get(ch[0], ch[0])
+    if re.search(r"option::Option::(ok_or|ok_or_else)$", n):
+        return lambda ch: (["Ok"] + ch[1:]) if head(ch) == "Some" else (["Err", "?"] if head(ch) == "None" else None)
+    if re.search(r"option::Option::(copied|cloned|as_ref|as_mut|take)$|result::Result::(as_ref|as_mut|copied|cloned|inspect_err|inspect)$", n):
+        return lambda ch: list(ch)
+    if re.search(r"result::Result::ok$", n):
+        return lambda ch: (["Some"] + ch[1:]) if head(ch) == "Ok" else (["None"] if head(ch) == "Err" else None)
+    if re.search(r"result::Result::err$", n):
+        return lambda ch: (["None"]) if head(ch) == "Ok" else (["Some", "?"] if head(ch) == "Err" else None)
+    if re.search(r"result::Result::map_err$", n):
+        return lambda ch: list(ch) if head(ch) == "Ok" else (["Err", "?"] if head(ch) == "Err" else None)
+    if re.search(r"result::Result::map$|option::Option::map$", n):
+        return lambda ch: [head(ch), "?"] if head(ch) in ("Ok", "Some") else ([head(ch)] + ch[1:] if head(ch) in ("Err", "None") else None)
+    if re.search(r"result::Result::is_ok$", n):
+        return lambda ch: ["const:1"] if head(ch) == "Ok" else (["const:0"] if head(ch) == "Err" else None)
+    if re.search(r"result::Result::is_err$", n):
+        return lambda ch: ["const:0"] if head(ch) == "Ok" else (["const:1"] if head(ch) == "Err" else None)
+    if re.search(r"option::Option::is_some$", n):
+        return lambda ch: ["const:1"] if head(ch) == "Some" else (["const:0"] if head(ch) == "None" else None)
+    if re.search(r"option::Option::is_none$", n):
+        return lambda ch: ["const:0"] if head(ch) == "Some" else (["const:1"] if head(ch) == "None" else None)
+    return None
+
+
 def refine_cuts(fn, call, chain):
     """edges (switch_node, label) that are infeasible when `call` returned a value whose
     constructor chain is `chain` (e.g. ['Ready','Ok','const:1'])"""
@@ -225,6 +256,8 @@ def refine_cuts(fn, call, chain):
         if base in refs and proj and proj[0] == "*":
             base = refs[base]
             proj = proj[1:]
+        elif base in refs and not proj:
+            base = refs[base]
         ch = bound.get(base)
         if ch is None:
             return None
@@ -286,6 +319,18 @@ def refine_cuts(fn, call, chain):
             if len(c.dest) != 1 or c.dest[0] in bound:
                 continue
             if fn.single_def(c.dest[0]) is None:
+                continue
+            comb = _combinator(c)
+            if comb is not None and c.args:
+                p = op_place(c.args[0])
+                if p is None:
+                    continue
+                ch = chain_at(p)
+                if ch and ch != "infeasible":
+                    nch = comb(ch)
+                    if nch is not None:
+                        bound[c.dest[0]] = nch
+                        changed = True
                 continue
             if c.matches(TRY_BRANCH_RX) and c.args:
                 p = op_place(c.args[0])
@@ -357,3 +402,35 @@ def refine_cuts(fn, call, chain):
             if l not in keep:
                 cuts.add((node, l))
     return cuts
+
+
+# ---------------------------------------------------------------------------------------
+# region rules (K4 exactly-one-of, region must-hit, reachability under an assumed result)
+
+def region_ends(fn, start):
+    """nodes that end the region opened at `start`: function exits (Return terminators) and
+    `start` itself (the enclosing loop came around)"""
+    return set(fn.return_nodes()) | {start}
+
+
+def region_uncovered(fn, start, hits, cuts=(), extra_ends=()):
+    """witness path from `start` (exclusive) to a region end that avoids all `hits`, or None"""
+    ends = region_ends(fn, start) | set(extra_ends)
+    return fn.witness_path([start], ends, avoid=set(hits), cut=cuts, after=True)
+
+
+def region_second_hit(fn, start, hits, cuts=()):
+    """(h1, h2, path) if after hit h1 another hit is reachable before the region ends"""
+    hits = set(hits)
+    for h in sorted(hits):
+        r = fn.witness_path([h], hits, avoid={start}, cut=cuts, after=True)
+        if r is not None:
+            return h, r[-1], r
+    return None
+
+
+def reachable_given(fn, call, chain, targets, stop_at_call=True):
+    """nodes of `targets` reachable after `call` when its result has constructor chain `chain`"""
+    cuts = refine_cuts(fn, call, chain)
+    r = fn.reach([call.node], cut=cuts, after=True, stop=[call.node] if stop_at_call else ())
+    return [t for t in targets if t in r], cuts
